@@ -5,12 +5,12 @@
 From Coq Require Import List ZArith Lia Bool.
 Import ListNotations.
 From CAres.Wire Require Import Cursor Cursor_proofs Name Record Parse Escape Escape_proofs RefDecode Name_ref Write Write_name Write_host
-     Write_name2 Write_pos Write_patch Write_enc Write_fields Write_query2 Write_fields2 Write_rr Write_errs Parse_sets Parse_ref3 Parse_ref5 Parse_cmp2 Parse_cmp3.
+     Write_name2 Write_pos Write_patch Write_enc Write_fields Write_query2 Write_fields2 Write_rr Write_errs Write_weq Wnorm Parse_sets Parse_ref3 Parse_ref5 Parse_cmp2 Parse_cmp3.
 From CAres.Gen Require Import Consts LeafFns Tables.
 Local Open Scope Z_scope.
 
 (* ---- the values the reference reports are the values of the record ---- *)
-Definition norm_kv (kv : Z * fval) : Z * fval := (fst kv, norm_fval (snd kv)).
+Definition norm_kv (kv : Z * fval) : Z * fval := (fst kv, wnorm_fval (snd kv)).
 
 Lemma lay_vals_fields r : forall lay pre fs,
   rr_fields r = pre ++ fs -> map fst fs = map fst lay -> NoDup (map fst pre ++ map fst lay) -> fields_wf lay r ->
@@ -25,7 +25,7 @@ Proof.
     assert (Hv0 : v0 = v).
     { unfold get_field in Hg. rewrite Hf, (assoc_get_app_notin key v pre fs Hnin) in Hg. injection Hg as <-. reflexivity. }
     subst v0. cbn [lay_vals map fst snd]. unfold norm_kv at 1 3. cbn [fst snd].
-    unfold field_of. rewrite Hg. rewrite (dec_val_norm k v Hv). f_equal.
+    unfold field_of. rewrite Hg. rewrite (dec_val_wnorm k v Hv). f_equal.
     apply (IH (pre ++ [(key, v)]) fs); [rewrite Hf, <- app_assoc; reflexivity | exact Hk | | exact Hwf'].
     rewrite map_app. cbn [map fst]. rewrite <- app_assoc. exact Hnd.
 Qed.
@@ -60,14 +60,14 @@ Definition is_opt (r : rr) : bool := rr_type r =? ARES_REC_TYPE_OPT.
 
 Lemma norm_rr_fields a b :
   rr_name a = rr_name b -> rr_type a = rr_type b -> rr_class a = rr_class b -> rr_ttl a = rr_ttl b ->
-  map norm_kv (rr_fields a) = map norm_kv (rr_fields b) -> norm_rr a = norm_rr b.
-Proof. intros H1 H2 H3 H4 H5. unfold norm_rr. rewrite H1, H2, H3, H4. f_equal. exact H5. Qed.
+  map norm_kv (rr_fields a) = map norm_kv (rr_fields b) -> wnorm_rr a = wnorm_rr b.
+Proof. intros H1 H2 H3 H4 H5. unfold wnorm_rr. rewrite H1, H2, H3, H4. f_equal. exact H5. Qed.
 
 Lemma write_rr_any b nl r rcode b' nl1 M :
   live_is b M -> ol_ok M nl -> rr_ok r -> 0 <= rcode ->
   write_one_rr wfixed 0 b nl r rcode 0 = Ok (b', nl1) ->
   exists RR rref, live_is b' (M ++ RR) /\ bytes_ok RR /\ ol_ok (M ++ RR) nl1 /\
-    norm_rr rref = norm_rr r /\ rr_supported rref = true /\
+    wnorm_rr rref = wnorm_rr r /\ rr_supported rref = true /\
     (Z.of_nat (length RR) <= 65535 ->
      forall post, ref_rr (M ++ RR ++ post) (length M)
                   = Some (rref, (length M + length RR)%nat, (if is_opt r then Some ((rcode / 16) mod 256) else None), true)).
@@ -120,7 +120,7 @@ Lemma write_rrs_any rcode : forall rs b nl b' nl' M,
   live_is b M -> ol_ok M nl -> Forall rr_ok rs -> 0 <= rcode ->
   write_rrs wfixed 0 b nl rs rcode 0 = Ok (b', nl') ->
   exists S rrefs, live_is b' (M ++ S) /\ bytes_ok S /\ ol_ok (M ++ S) nl' /\
-    map norm_rr rrefs = map norm_rr rs /\ forallb rr_supported rrefs = true /\
+    map wnorm_rr rrefs = map wnorm_rr rs /\ forallb rr_supported rrefs = true /\
     (Z.of_nat (length S) <= 65535 ->
      forall post, ref_rrs (length rs) (M ++ S ++ post) (length M) = Some (rrefs, (length M + length S)%nat, exts_of rcode rs, true)).
 Proof.
@@ -235,9 +235,11 @@ Proof. unfold rcode_isvalid. intros H. apply zmem_in in H. unfold tbl_rcodes_val
 
 Theorem roundtrip_fixed d bs :
   msg_wf d -> dns_write d = Ok bs ->
-  Z.of_nat (length bs) <= 65535 /\ exists d', dns_parse bs 0 = Ok d' /\ norm_parsed d' = norm_parsed d.
+  Z.of_nat (length bs) <= 65535 /\
+  exists d', dns_parse bs 0 = Ok d' /\ norm_parsed d' = norm_parsed d /\ wnorm_parsed d' = wnorm_parsed d /\ dns_write d' = Ok bs.
 Proof.
   intros (Hid & Hfl & Hop & Hopv & Hrcv & Hrco & (q & Hqd & (Hqn & Hqt & Hqc)) & Han & Hns & Har & Hopt1 & Lan & Lns & Lar) H.
+  pose proof H as Hwrite0.
   pose proof (rcode_range _ Hrcv) as Hrc.
   unfold dns_write, dns_write_v, write_buf in H. cbv zeta in H.
   change (wb_len wb_empty) with 0 in H.
@@ -364,10 +366,13 @@ Proof.
     rewrite Hhwo, Hopv, Hqc. cbn [andb]. rewrite !forallb_app, Hs1, Hs2, Hs3. reflexivity. }
   destruct (complete_fixed bs Hbok Hstrict) as (d' & Hparse).
   split; [exact HlenB|]. exists d'. split; [exact Hparse|].
-  pose proof (sound_fixed bs d' rf Hbok Hparse Rd) as Hs. unfold fields_agree in Hs. rewrite Hs.
-  unfold rf, norm_ref, norm_parsed. cbn [rf_rec d_id d_flags d_opcode d_rcode d_qd d_an d_ns d_ar].
-  rewrite Hhwf, Hhwo, Hrcode, Hn1, Hn2, Hn3, Hqd.
-  unfold reported_rcode. rewrite Hrcv. rewrite <- Hnm. destruct q; reflexivity.
+  pose proof (sound_fixed_w bs d' rf Hbok Hparse Rd) as Hs.
+  assert (Hw : wnorm_parsed d' = wnorm_parsed d).
+  { rewrite Hs. unfold rf, wnorm_ref, wnorm_parsed. cbn [rf_rec d_id d_flags d_opcode d_rcode d_qd d_an d_ns d_ar].
+    rewrite Hhwf, Hhwo, Hrcode, Hn1, Hn2, Hn3, Hqd.
+    unfold reported_rcode. rewrite Hrcv. rewrite <- Hnm. destruct q; reflexivity. }
+  split; [apply wnorm_parsed_norm; exact Hw|]. split; [exact Hw|].
+  rewrite (dns_write_wnorm d' d Hw). exact Hwrite0.
 Qed.
 
 (* ---- not vacuous: a response with A, MX (compressed exchange), TXT and an OPT RR with options ---- *)
